@@ -5,6 +5,7 @@ import (
 	"reflect"
 	"regexp"
 	"strings"
+	"unicode"
 
 	"github.com/grafana/cog/internal/tools"
 )
@@ -67,6 +68,18 @@ func escapeVarName(varName string) string {
 	}
 
 	return varName
+}
+
+// variableNamePart gives what can be part of the name of a variable in the name
+// of a field, which is data (`my-tags`, `my.map`).
+func variableNamePart(name string) string {
+	return strings.Map(func(char rune) rune {
+		if char == '_' || unicode.IsLetter(char) || unicode.IsDigit(char) {
+			return char
+		}
+
+		return '_'
+	}, name)
 }
 
 // isUsedByGeneratedCode tells whether an identifier is one the generated
